@@ -230,6 +230,10 @@ class TransCheck:
         from hypothesis import strategies as st
         from vlib import gen_fortran as gf
         names = names or list(self.spec)
+        import os
+        if os.environ.get("VERIF_ONLY"):      # development aid
+            names = [n for n in names
+                     if n in os.environ["VERIF_ONLY"].split(",")] or names
         count = [0]
         spec = self.spec
         profile = self.profile
